@@ -7,7 +7,7 @@ if [ "$1" = "--kept" ]; then
   id="$2"; tier="${3:-quick}"; dir="$here/seeded/$id"; prop="$(python3 -c "import json,sys;print(json.load(open('$dir/meta.json'))['property'])")"
   wt="/tmp/seedwt-$id"; git -C /repo worktree add -q --detach "$wt" HEAD || exit 3; made=1
 else
-  prop="$1"; x="$2"; tier="${3:-quick}"; dir="/tmp/seed/out/$prop/$x"; wt="/tmp/seed/$prop"; made=0
+  prop="$1"; x="$2"; tier="${3:-quick}"; dir="/tmp/seed/${SEED_OUT:-out}/$prop/$x"; wt="/tmp/seed/$prop"; made=0
 fi
 demo="$(ls "$dir"/demo.* | head -1)"
 rundemo() { case "$demo" in *.py) (cd "$wt" && SEED_WT="$wt" timeout 900 /venv/bin/python "$demo" >"$1" 2>&1);; *) (cd "$wt" && SEED_WT="$wt" timeout 900 sh "$demo" >"$1" 2>&1);; esac; }
